@@ -217,6 +217,63 @@ R.contract(
     unreachable_ok=_EXACT_ARM + _CLUSTER_ARM + _ARCHIVE_ARM + ["out.append("],
 )
 
+# ------------------------------------------------------------------ _search_with_episodes: cluster tier (region contract)
+# the cluster arm in isolation: live-ins are the owner-filtered episodes and the parsed hints; the rule proved is
+# "the ranked pool consists exactly of the episodes of the top-m clusters under (-centroid cosine, cluster id)"
+R.untype("Cid", strlike=True)
+R.opaque(INDEX + "_stable_cluster_id", "cluster_of", ["Episode"], "Un[Cid]")
+_TOPM = "min(clusters_top_m, len(cluster_scores))"
+R.contract(
+    INDEX + "InMemoryIndex._search_with_episodes", "C11", name="InMemoryIndex._search_with_episodes[cluster-tier region]", callee=False,
+    region=("by_cluster: Dict[str, List[Dict[str, Any]]] = {}", "results = self._rank_by_cosine(pool"),
+    types={"self": "MemIndex", "episodes": EPS, "owner": "Optional[str]", "q_vec": "Un[Vec]", "k": "int", "tier": "str", "hints": "None",
+           "all_eps": EPS, "sim_threshold": "float", "clusters_top_m": "int"},
+    # t2.k_retrieval >= 1 and clusters_top_m >= 1 are validated; a negative top-m would make [:m] drop from the end
+    requires=[("validator-range", "k >= 0 and clusters_top_m >= 0")],
+    ensures=[
+        ("clusters-partition-by-cluster-id",
+         "forall((c, 'Un[Cid]'), c in by_cluster, forall(m, 0 <= m < len(by_cluster[c]), cluster_of(by_cluster[c][m]) == c and "
+         "exists(j, 0 <= j < len(all_eps), all_eps[j] == by_cluster[c][m])))"),
+        ("every-episode-is-in-its-cluster",
+         "forall(j, 0 <= j < len(all_eps), cluster_of(all_eps[j]) in by_cluster and "
+         "exists(m, 0 <= m < len(by_cluster[cluster_of(all_eps[j])]), by_cluster[cluster_of(all_eps[j])][m] == all_eps[j]))"),
+        ("ranked-clusters-are-clusters", "forall(p, 0 <= p < len(cluster_scores), cluster_scores[p][0] in by_cluster)"),
+        ("clusters-ranked-by-score-desc-then-id",
+         "forall2(p, q, 0 <= p and p < q and q < len(cluster_scores), "
+         "(0 - cluster_scores[p][1], cluster_scores[p][0]) <= (0 - cluster_scores[q][1], cluster_scores[q][0]))"),
+        ("chosen-are-exactly-the-top-m",
+         "forall((c, 'Un[Cid]'), c in chosen, exists(p, 0 <= p < " + _TOPM + ", cluster_scores[p][0] == c)) and "
+         "forall(p, 0 <= p < " + _TOPM + ", cluster_scores[p][0] in chosen)"),
+        ("pool-only-from-chosen-clusters",
+         "forall(m, 0 <= m < len(pool), cluster_of(pool[m]) in chosen and exists(j, 0 <= j < len(all_eps), all_eps[j] == pool[m]))"),
+        ("pool-has-every-episode-of-chosen-clusters",
+         "forall(j, 0 <= j < len(all_eps), implies(cluster_of(all_eps[j]) in chosen, exists(m, 0 <= m < len(pool), pool[m] == all_eps[j])))"),
+        ("hits-come-from-top-m-clusters",
+         "forall(i, 0 <= i < len(results), cluster_of(results[i][0]) in chosen and exists(j, 0 <= j < len(all_eps), all_eps[j] == results[i][0]) "
+         "and results[i][1] >= sim_threshold)"),
+        ("at-most-k", "len(results) <= k"),
+        ("input-untouched", "seq_eq(all_eps, old(all_eps)) and seq_eq(self._eps, old(self._eps))"),
+    ],
+    raises="none",
+    loops={
+        0: {"inv": [
+            "forall((c, 'Un[Cid]'), c in by_cluster, forall(m, 0 <= m < len(by_cluster[c]), cluster_of(by_cluster[c][m]) == c and "
+            "exists(j, 0 <= j < _i, all_eps[j] == by_cluster[c][m])))",
+            "forall(j, 0 <= j < _i, cluster_of(all_eps[j]) in by_cluster and "
+            "exists(m, 0 <= m < len(by_cluster[cluster_of(all_eps[j])]), by_cluster[cluster_of(all_eps[j])][m] == all_eps[j]))",
+        ]},
+        1: {"inv": ["forall(p, 0 <= p < len(cluster_scores), cluster_scores[p][0] in by_cluster)"]},
+        2: {"inv": [
+            "forall(m, 0 <= m < len(pool), cluster_of(pool[m]) in chosen and exists(j, 0 <= j < len(all_eps), all_eps[j] == pool[m]))",
+            "forall(j, 0 <= j < len(all_eps), implies(exists(r, 0 <= r < _i, _iter[r] == cluster_of(all_eps[j])), "
+            "exists(m, 0 <= m < len(pool), pool[m] == all_eps[j])))",
+        ]},
+    },
+    locals={"by_cluster": "Dict[Un[Cid], List[Episode]]", "cluster_scores": "List[Tuple[Un[Cid], float]]", "pool": EPS,
+            "results": SCORED, "vecs": "List[Un[Vec]]"},
+    feas_timeout_ms=60, named_seqs=True,
+)
+
 # ------------------------------------------------------------------ MMR (quality_mmr.py): rerankers only permute
 MMR = "clematis/engine/stages/t2/quality_mmr.py:"
 R.untype("Toks")                       # token sets are only handed to dist_fn
